@@ -50,7 +50,14 @@ def leaves_full():
     L += [["Generic", [3, 3], "c16", "g"], ["Generic", [2, 3], "c16", "g"]]
     L += [["NoDisp", ["Diag", 3, "f8", "mixed"]], ["NoDisp", D(2, 3, "c16")]]
     L += annotated_leaves()
+    L += library_leaves()
     return L
+
+
+def library_leaves():
+    """operators the library itself returns, used as leaves (tolerance tier)"""
+    return [["Lib", "TriInv", 3, "f8"], ["Lib", "TriInvUpper", 2, "c16"], ["Lib", "TriInv", 3, "c16"], ["Lib", "CGInv", 3, "f8"], ["Lib", "CGInv", 2, "c16"],
+            ["Lib", "LSTSQ", 3, "f8"], ["Lib", "ExpLanczos", 3, "f8"], ["Lib", "ExpLanczos", 2, "c16"], ["Lib", "PinvWide", 2, "f8"]]
 
 
 def annotated_leaves():
